@@ -58,6 +58,10 @@ class Codec:
     def describe(self):
         return type(self).__name__
 
+    def cxx_kinds(self):
+        """C++ element kinds (as classified by the compiler) this codec is a faithful reading of."""
+        return ('u', 'i', 'f', 'bool', 'enum')
+
 
 class Int(Codec):
     def __init__(self, signed, note=None, avoid=()):
@@ -91,6 +95,9 @@ class Int(Codec):
     def describe(self):
         return 'i' if self.signed else 'u'
 
+    def cxx_kinds(self):
+        return ('i',) if self.signed else ('u',)
+
 
 class Float(Codec):
     def patterns(self, w, rng, current, thorough):
@@ -117,6 +124,9 @@ class Float(Codec):
     def describe(self):
         return 'f'
 
+    def cxx_kinds(self):
+        return ('f',)
+
 
 class Bool(Codec):
     """C++ bool / 0-1 flag. Python decodes any non-zero byte as True and writes 1: only 0 and 1 are probed."""
@@ -141,6 +151,9 @@ class Bool(Codec):
 
     def describe(self):
         return 'bool'
+
+    def cxx_kinds(self):
+        return ('bool',)
 
 
 class Enum(Codec):
@@ -188,6 +201,9 @@ class Enum(Codec):
 
     def describe(self):
         return 'enum'
+
+    def cxx_kinds(self):
+        return ('enum',)
 
 
 class Scaled(Codec):
@@ -242,6 +258,9 @@ class Scaled(Codec):
     def describe(self):
         return 'scaled(%g%s)' % (self.scale, ', nan=%s' % self.nan_raw if self.nan_raw is not None else '')
 
+    def cxx_kinds(self):
+        return ('i',) if self.signed else ('u',)
+
 
 class TsPart(Codec):
     """One half of a C++ Timestamp {uint32 seconds; uint32 fraction_ns}: Python exposes the single float
@@ -274,6 +293,9 @@ class TsPart(Codec):
     def describe(self):
         return 'timestamp.' + self.which
 
+    def cxx_kinds(self):
+        return ('u',)
+
 
 class Reserved(Codec):
     """Padding: unpack ignores the bytes, pack writes zeros."""
@@ -287,6 +309,9 @@ class Reserved(Codec):
 
     def describe(self):
         return 'reserved'
+
+    def cxx_kinds(self):
+        return ('u',)
 
 
 class Const(Codec):
@@ -302,6 +327,9 @@ class Const(Codec):
 
     def describe(self):
         return 'const'
+
+    def cxx_kinds(self):
+        return ('u',)
 
 
 class ReadOnlyInt(Int):
@@ -336,6 +364,9 @@ class RawBytes(Codec):
 
     def describe(self):
         return 'bytes'
+
+    def cxx_kinds(self):
+        return ('u',)
 
 
 class Length(Codec):
@@ -376,6 +407,9 @@ class Length(Codec):
 
     def describe(self):
         return 'length(x%d)' % self.unit
+
+    def cxx_kinds(self):
+        return ('u',)
 
 
 class Consumed(Length):
@@ -421,14 +455,19 @@ class Tag(Codec):
     def describe(self):
         return 'tag'
 
+    def cxx_kinds(self):
+        return ('enum',)
+
 
 class M:
     """One member override. attr: Python attribute path relative to the object ('' = several / custom);
     shape: for array members the shape of the numpy attribute (row-major) when it is not 1-D."""
 
-    def __init__(self, attr=None, codec=None, shape=None, subtree=None, getter=None, setter=None, note=None):
+    def __init__(self, attr=None, codec=None, shape=None, subtree=None, getter=None, setter=None, note=None,
+                 accept_kind=None):
         self.attr, self.codec, self.shape, self.subtree, self.getter, self.setter, self.note = \
             attr, codec, shape, subtree, getter, setter, note
+        self.accept_kind = accept_kind      # C++ kind knowingly read through a codec of another kind (documented in `note`)
 
 
 # ---------------------------------------------------------------------------------------------------------------
@@ -658,7 +697,7 @@ def members():
         'GNSSSatelliteMessage': {'num_satellites': M(attr='svs', codec=Length(
             lambda k: [sol.SatelliteInfo() for _ in range(k)], lambda k: bytes(12 * k), 12))},
         'CalibrationStatusMessage': {
-            'state_verified': M(codec=Bool('C++ uint8_t documented as a 0/1 flag; Python exposes a bool')),
+            'state_verified': M(codec=Bool('C++ uint8_t documented as a 0/1 flag; Python exposes a bool'), accept_kind='u'),
             'gyro_bias_percent_complete': M(codec=Scaled(0.5, False)),
             'accel_bias_percent_complete': M(codec=Scaled(0.5, False)),
             'mounting_angle_percent_complete': M(codec=Scaled(0.5, False)),
